@@ -61,3 +61,13 @@ Definition trim_end (l : list N) : list N := rev (trim_start (rev l)).
 
 (* StreamingLineReader::read until None, over a reader that delivers [bytes] *)
 Definition line_stream (bytes : list N) : list (list N) := map trim_end (split_lines bytes).
+
+(* ---- reference definitions (what a correct chunk list is) ---- *)
+(* consecutive pieces (a_i, b_i): the first starts at [a], each starts where the one before ends,
+   the last ends at [e] *)
+Inductive chain : N -> list (N * N) -> N -> Prop :=
+| chain_last a b : a <= b -> chain a [(a, b)] b
+| chain_cons a b cs e : a <= b -> chain b cs e -> chain a ((a, b) :: cs) e.
+(* offset p is the start of a line: the start of the file, or the byte before it is a newline *)
+Definition cut_ok (file : list N) (p : N) : Prop :=
+  p = 0 \/ exists pre post, file = pre ++ NL :: post /\ p = Nlen pre + 1.
